@@ -75,8 +75,25 @@ pub fn mix(ctx: &Ctx, rng: &mut Rng) -> Mix {
 
 pub fn case(ctx: &mut Ctx, idx: u64) {
     let mut rng = Rng::for_case(ctx.seed, "C02", idx);
-    let mx = mix(ctx, &mut rng);
-    let Some((mc, map)) = gen::gen_domain_map_ext(&mut rng, &mx, Domain::Realistic, 3, 15) else {
+    // 4 % of the cases: few objects, but any slider the decoder accepts inside the adversarial domain (very slow or very long
+    // sliders with hundreds of ticks and tiny droplets between two slider events, extreme velocities)
+    let zoo = rng.below(25) == 0;
+    let (mx, dom) = if zoo {
+        ctx.count("class:slider-zoo");
+        (
+            Mix {
+                realistic: false,
+                max_objects: 10,
+                profiles: Some(vec![Profile::SliderZoo, Profile::SliderZoo, Profile::Limits]),
+                fixtures: false,
+                mode: None,
+            },
+            Domain::Adversarial,
+        )
+    } else {
+        (mix(ctx, &mut rng), Domain::Realistic)
+    };
+    let Some((mc, map)) = gen::gen_domain_map_ext(&mut rng, &mx, dom, 3, 15) else {
         ctx.count("skipped_no_domain_map");
         return;
     };
